@@ -20,11 +20,13 @@ def sha512_256With (H : HashFn) (xs : List Bytes) : Option Bytes :=
 def sha512_256iWith (H : HashFn) (ns : List Int) : Option Nat :=
   if ns.isEmpty then none else some (bytesToNat (H (frame (ns.map intToBytesBE))))
 
+/-- the byte string `SHA512_256i_TAGGED` feeds to the hash: the tag digest twice, then the framed inputs -/
+def taggedPreimage (H : HashFn) (tag : Bytes) (ns : List Int) : Bytes :=
+  H (frame [tag]) ++ H (frame [tag]) ++ frame (ns.map intToBytesBE)
+
 /-- `common.SHA512_256i_TAGGED(tag, in...)` -/
 def sha512_256iTaggedWith (H : HashFn) (tag : Bytes) (ns : List Int) : Option Nat :=
-  if ns.isEmpty then none else
-    let t := H (frame [tag])
-    some (bytesToNat (H (t ++ t ++ frame (ns.map intToBytesBE))))
+  if ns.isEmpty then none else some (bytesToNat (H (taggedPreimage H tag ns)))
 
 /-- `common.SHA512_256iOne` -/
 def sha512_256iOneWith (H : HashFn) (n : Int) : Nat := bytesToNat (H (intToBytesBE n))
